@@ -8,6 +8,7 @@ import (
 	"go/constant"
 	"go/token"
 	"go/types"
+	"os"
 	"sort"
 	"strings"
 
@@ -543,6 +544,14 @@ func (a *FA) lin(v ssa.Value, depth int) Lin {
 		case token.SHL:
 			if k, ok := constInt64(stripConv(x.Y)); ok && k >= 0 && k < 62 {
 				return linConst(0).addScaled(a.lin(x.X, depth+1), int64(1)<<uint(k))
+			}
+		case token.AND, token.AND_NOT:
+			// x &^ (2^c-1)  ==  x & -2^c  ==  (x >> c) << c   (floor to a multiple of 2^c, signed or unsigned)
+			if os.Getenv("LOWCHECK_NOALIGNNORM") == "" {
+				if ax, c, ok := asAlignDown(x); ok && c > 0 && c < 32 {
+					sh := "(>> " + a.VN(ax) + " c:" + fmt.Sprint(c) + ")"
+					return linConst(0).addScaled(linAtom(sh), int64(1)<<uint(c))
+				}
 			}
 		}
 	case *ssa.UnOp:
